@@ -64,6 +64,10 @@ func (t *Track) RecordFrom(inPort drivers.In, ticks MetricTicks, bpm float64) (s
 	t.Add(0, MetaTempo(bpm))
 	var absmillisec int32
 	return midi.ListenTo(inPort, func(msg midi.Message, absms int32) {
+		// only channel messages can be stored as they are in a track
+		if !msg.Is(midi.ChannelMsg) {
+			return
+		}
 		deltams := absms - absmillisec
 		absmillisec = absms
 		delta := ticks.Ticks(bpm, time.Duration(deltams)*time.Millisecond)
